@@ -22,7 +22,7 @@ LEVEL_TEXT = ("Seeded exploration restricted to reachable logs: the reporting fu
               "sequences would be input generation, not simulation, and is not done.")
 LEVEL_NOTE = "Trusted: the independent run-length encoder and brute-force filters in this module; reachable sequences only."
 PROBES = ["logs_encoded", "log_with_absence_flip", "log_suspended_tail", "log_reversed", "log_edited", "log_absence_removed", "extract_queries",
-          "extract_out_of_range", "log_appended_from_json", "extract_repeated_time", "asked_again_after_in_place_edit", "plotly_rows_checked", "last_datetime_checked", "resource_absence_run"]
+          "extract_out_of_range", "log_appended_from_json", "extract_repeated_time", "asked_again_after_in_place_edit", "plotly_rows_checked", "last_datetime_checked", "resource_absence_run", "log_of_a_late_worker"]
 
 MARGINS = (1.0, 0.0, 0.5)
 
@@ -36,7 +36,7 @@ def gen(rng, tier):
     if rng.random() < 0.4:
         focus.update(comps=True, facilities=True)
     spec = C.forward_spec(rng, tier, focus, max_time=rng.choice([5, 12, 25, 40]))
-    spec["variant"] = G.wchoice(rng, [("forward", 4), ("backward", 2), ("edited", 2), ("removed", 2), ("appended", 1.5)])
+    spec["variant"] = G.wchoice(rng, [("forward", 4), ("backward", 2), ("edited", 2), ("removed", 2), ("appended", 1.5), ("late_worker", 1)])
     spec["k"] = rng.randint(1, 8)
     spec["reverse"] = rng.random() < 0.5
     spec["edit"] = sorted(set(rng.randint(0, 8) for _ in range(rng.randint(1, 3))))
@@ -142,6 +142,20 @@ def run(spec):
                 res.count("log_appended_from_json")
             else:
                 res.count("append_not_possible")
+    elif variant == "late_worker":
+        # the run is cut off, a team gets one more worker (team.add_worker), and the run goes on with state and logs kept: the
+        # newcomer's log starts later than everybody else's, and every report is a function of each object's own log
+        from .. import env
+        rec, out = scen.simulate(p, dict(spec["cfg"], max_time=spec.get("k", 3)), want_snap=False)
+        tms_ = [tm for tm in p.organization.team_list if tm.worker_list]
+        if out.ok and tms_:
+            tm_ = tms_[spec.get("k", 3) % len(tms_)]
+            old_ = tm_.worker_list[0]
+            new_ = env.M.bw.BaseWorker("late", ID="wlate", cost_per_time=1.0, workamount_skill_mean_map=dict(old_.workamount_skill_mean_map),
+                                       facility_skill_map=dict(old_.facility_skill_map))
+            D.call(lambda: tm_.add_worker(new_))
+            rec, out = scen.simulate(p, dict(spec["cfg"], init_state=False, init_log=False), want_snap=False)
+            res.count("log_of_a_late_worker")
     else:
         rec, out = scen.simulate(p, spec["cfg"], want_snap=False)
         if variant == "edited" and out.ok:
